@@ -15,7 +15,10 @@
 // EXTCODE*, SLOAD, SSTORE, LOG*, CREATE, CALL*, SELFDESTRUCT) are known to the
 // validity / stack-arity tables but are not executed: a run that reaches one
 // with enough stack items stops with Halt == Unmodelled and the caller judges
-// only the prefix.
+// only the prefix - unless Env.External supplies the observed machine state
+// after that instruction (ExtResult), in which case the run goes on from it:
+// the frame's own instructions before and after a nested frame are all judged,
+// the nested frame's effect on this one is taken as given.
 package refevm
 
 import (
@@ -55,6 +58,25 @@ type Env struct {
 	Code, Input                       []byte
 	Gas                               uint64
 	MemSnapshotMax                    int // steps carry a copy of memory when it is at most this long
+	StackWindow                       int // > 0: steps carry only this many topmost stack items (Depth is always the full depth)
+	// External, when set, is asked for the observed effect of an instruction
+	// outside the computational subset (the i-th step of the frame). A nil
+	// answer ends the run with Halt == Unmodelled as if External were unset.
+	External func(i int, op byte) *ExtResult
+}
+
+// ExtResult is the machine state right after an instruction the reference
+// does not execute itself (state access, LOG, CREATE, CALL*): taken from an
+// observation, never computed. The reference removes the instruction's
+// operands from its own stack, pushes Push (when the instruction pushes a
+// word), continues at pc+1 with Gas and Mem, and - for CREATE / CALL* only -
+// replaces the frame's return data buffer by Ret.
+type ExtResult struct {
+	Gas      uint64
+	Push     *big.Int
+	Mem      []byte
+	Ret      []byte
+	RetKnown bool // false: RETURNDATASIZE / RETURNDATACOPY end the run as Unmodelled
 }
 
 type Halt uint8
@@ -105,9 +127,11 @@ type Step struct {
 	Op        byte
 	GasBefore uint64
 	Cost      uint64
-	Stack     []*big.Int // bottom first; values are never mutated afterwards
+	Stack     []*big.Int // bottom first; values are never mutated afterwards; the top Env.StackWindow items when that is set
+	Depth     int        // number of items on the stack
 	MemSize   uint64     // bytes, multiple of 32, after expansion
 	Mem       []byte     // copy (after expansion, before execution) or nil when larger than MemSnapshotMax
+	External  bool       // an instruction outside the subset resolved by Env.External: Cost, MemSize and Mem are not set
 }
 
 type Result struct {
@@ -359,9 +383,22 @@ type machine struct {
 	gas   uint64
 	pc    uint64
 	dests map[uint64]bool
+	// the return data buffer (EIP-211): empty until a CREATE / CALL* resolved
+	// by Env.External replaces it
+	retData    []byte
+	retUnknown bool
 }
 
 func (m *machine) top(i int) *big.Int { return m.stack[len(m.stack)-1-i] }
+
+// window is the copy of the stack a Step carries.
+func (m *machine) window() []*big.Int {
+	st := m.stack
+	if w := m.env.StackWindow; w > 0 && len(st) > w {
+		st = st[len(st)-w:]
+	}
+	return append([]*big.Int(nil), st...)
+}
 
 // memWords is the Yellow Paper's M(s, f, l): the active word count after an
 // access of l bytes at f.
@@ -422,11 +459,34 @@ func Run(ep Epoch, env *Env) *Result {
 		if len(m.stack)-info.pops+info.pushes > stackLimit {
 			exc |= ExcStackOverflow
 		}
-		if !info.modelled {
-			res.Halt, res.GasLeft = Unmodelled, m.gas
-			res.EndPC, res.EndOp, res.EndGas = m.pc, op, m.gas
-			res.EndStack = append([]*big.Int(nil), m.stack...)
-			return res
+		if !info.modelled || ((op == 0x3d || op == 0x3e) && m.retUnknown) {
+			var r *ExtResult
+			if !info.modelled && env.External != nil {
+				r = env.External(len(res.Steps), op)
+			}
+			if r == nil {
+				res.Halt, res.GasLeft = Unmodelled, m.gas
+				res.EndPC, res.EndOp, res.EndGas = m.pc, op, m.gas
+				res.EndStack = append([]*big.Int(nil), m.stack...)
+				res.FinalMemSize = uint64(len(m.mem))
+				return res
+			}
+			res.Steps = append(res.Steps, Step{PC: m.pc, Op: op, GasBefore: m.gas, Stack: m.window(), Depth: len(m.stack), External: true})
+			m.stack = m.stack[:len(m.stack)-info.pops]
+			if info.pushes == 1 {
+				v := big.NewInt(0)
+				if r.Push != nil {
+					v = new(big.Int).Set(r.Push)
+				}
+				m.stack = append(m.stack, v)
+			}
+			m.gas = r.Gas
+			m.mem = append([]byte(nil), r.Mem...)
+			if op == 0xf0 || op == 0xf1 || op == 0xf2 || op == 0xf4 || op == 0xfa {
+				m.retData, m.retUnknown = append([]byte(nil), r.Ret...), !r.RetKnown
+			}
+			m.pc++
+			continue
 		}
 
 		// ---- price: constant tier + per-word part + memory expansion
@@ -463,10 +523,10 @@ func Run(ep Epoch, env *Env) *Result {
 		case 0x57:
 			jumping = m.top(1).Sign() != 0
 		case 0x3e:
-			// EIP-211: start + length beyond the return data buffer. No call
-			// was made in this frame, so the buffer is empty.
+			// EIP-211: start + length beyond the return data buffer (empty
+			// until a call made in this frame returned)
 			end := new(big.Int).Add(m.top(1), m.top(2))
-			if end.Sign() > 0 {
+			if end.Cmp(big.NewInt(int64(len(m.retData)))) > 0 {
 				exc |= ExcReturnDataOOB
 			}
 		}
@@ -484,7 +544,7 @@ func Run(ep Epoch, env *Env) *Result {
 
 		// ---- commit: pay, grow memory, record, execute
 		c := cost.Uint64()
-		step := Step{PC: m.pc, Op: op, GasBefore: m.gas, Cost: c, Stack: append([]*big.Int(nil), m.stack...)}
+		step := Step{PC: m.pc, Op: op, GasBefore: m.gas, Cost: c, Stack: m.window(), Depth: len(m.stack)}
 		m.gas -= c
 		if nw := newWords.Uint64(); nw > curWords {
 			m.mem = append(m.mem, make([]byte, (nw-curWords)*32)...)
@@ -668,9 +728,12 @@ func Run(ep Epoch, env *Env) *Result {
 			case 0x3a:
 				push(new(big.Int).Set(env.GasPrice))
 			case 0x3d:
-				push(big.NewInt(0))
+				push(big.NewInt(int64(len(m.retData))))
 			case 0x3e:
-				// in bounds only for offset 0, length 0 of the empty buffer: nothing to copy
+				if n := args[2].Uint64(); n > 0 {
+					o := args[1].Uint64()
+					copy(m.mem[args[0].Uint64():], m.retData[o:o+n])
+				}
 			case 0x40: // BLOCKHASH: one of the 256 most recent complete blocks, else 0
 				n := args[0]
 				age := new(big.Int).Sub(env.Number, n)
